@@ -65,3 +65,16 @@ Theorem settings_keys_distinct :
   (forall g, key g = key_spec g) /\ (forall g g', key g = key g' -> g = g').
 Proof. split; [exact key_is_djb|exact key_inj]. Qed.
 Print Assumptions settings_keys_distinct.
+
+(* What "interrupted" means: a run under any fault issues a prefix (in time) of the calls the uninterrupted run
+   issues from the same database (logs are newest first), ... *)
+Theorem interrupted_run_is_prefix : forall cfg f d, exists later,
+  map fst (run_log cfg None d) = later ++ map fst (run_log cfg f d).
+Proof. exact run_is_prefix. Qed.
+Print Assumptions interrupted_run_is_prefix.
+
+(* ... only its last call can have failed, and the run reports an error exactly when it did. *)
+Theorem failed_call_is_last : forall cfg f d e rest, run_log cfg f d = e :: rest ->
+  Forall (fun x => snd x = true) rest /\ snd (run cfg f d) = snd e.
+Proof. exact run_failed_call_is_last. Qed.
+Print Assumptions failed_call_is_last.
